@@ -14,7 +14,7 @@ From Coq Require Import Lia.
    deprecated enum value, applied custom directives with arguments, a union,
    an input type with defaults and a directive definition, descriptions in the
    one-line and in the block layout on types, the directive definition, fields,
-   an enum value and an input field; the
+   an enum value, an input field and an argument (the one-argument-per-line layout); the
    conclusion is
    also checked by computation (text, document, rebuilt schema, second print) *)
 Definition tag_dir (z : Z) : directive :=
@@ -24,7 +24,7 @@ Definition plain_example : schema :=
   Sch [TObject (s "Query") (Some (s "The root")) [s "Node"]
          [SF (s "id") (s "id") [] (RNonNull (RNamed (s "ID"))) (Some (s "the id")) None [];
           SF (s "e") (s "e")
-             [SIV (s "x") (s "x") (RList (RNonNull (RNamed (s "In")))) None None [];
+             [SIV (s "x") (s "x") (RList (RNonNull (RNamed (s "In")))) None (Some (s "the x, described")) [];
               SIV (s "n") (s "n") (RNamed (s "Int")) (Some (PInt 5)) None [tag_dir 1];
               SIV (s "es") (s "es") (RList (RNamed (s "E"))) (Some (PList [PStr (s "A"); PNone])) None [];
               SIV (s "i") (s "i") (RNamed (s "In")) (Some (PDict [(s "n", PInt 7); (s "t", PStr [104; 10; 34]%N)])) None []]
@@ -38,7 +38,7 @@ Definition plain_example : schema :=
                              SIV (s "t") (s "t") (RNamed (s "String")) (Some (PStr (s "x"))) None []] [];
        TScalar (s "Date") None [tag_dir 5]]
       [DD (s "tag") (Some (s "a tag, with a backslash \ inside")) [s "FIELD_DEFINITION"; s "OBJECT"; s "SCALAR"; s "ENUM_VALUE"; s "ARGUMENT_DEFINITION"; s "SCHEMA"]
-          [SIV (s "n") (s "n") (RNamed (s "Int")) (Some (PInt 0)) None []]]
+          [SIV (s "n") (s "n") (RNamed (s "Int")) (Some (PInt 0)) (Some (s "the number, described")) []]]
       (Some (s "Query")) None None [tag_dir 6].
 
 Definition example_opts : popts := POpts (s "  ") true false CustomAll.
@@ -99,10 +99,12 @@ Proof.
            | |- wf_tref _ => cbn [wf_tref]
            | |- full_tdef _ _ _ => unfold full_tdef; cbn [clear_tdesc]
            | |- m_tdef _ _ _ => unfold m_tdef; cbn [tdef_desc tdef_dirs tdef_name]
-           | |- d_sf _ _ _ => unfold d_sf, clear_sf; cbn [sf_name sf_py sf_args sf_type sf_dep sf_dirs]
+           | |- d_sf _ _ _ => unfold d_sf; cbn [sf_name sf_args sf_type sf_dirs sf_desc]
+           | |- d_arg _ _ _ _ => unfold d_arg, clear_siv; cbn [siv_name siv_py siv_type siv_default siv_dirs]
            | |- d_sev _ _ => unfold d_sev, clear_sev; cbn [sev_name sev_value sev_dep sev_dirs]
            | |- d_siv _ _ _ => unfold d_siv, clear_siv; cbn [siv_name siv_py siv_type siv_default siv_dirs]
-           | |- dt_ddef _ _ _ => unfold dt_ddef, clear_ddesc; cbn [dd_name dd_locs dd_args]
+           | |- m_ddef _ _ _ => unfold m_ddef; cbn [dd_name dd_locs dd_args dd_desc]
+           | |- In _ _ => vm_compute; repeat (first [left; reflexivity | right])
            | |- plain_sf _ _ _ => unfold plain_sf; cbn [sf_desc sf_dirs sf_name sf_type sf_args]
            | |- plain_siv _ _ _ => unfold plain_siv; cbn [siv_desc siv_dirs siv_name siv_type]
            | |- plain_sev _ _ => unfold plain_sev; cbn [sev_desc sev_dirs sev_name]
